@@ -14,6 +14,11 @@ Families:
   history  2-4 calls on ONE Matrix / labelled object with in-place edits in between (grow with larger labels, cancel,
            `*=` a number): every call is compared with the model of the cumulative history and checked by the oracle
            (state domain 0..max_index of the object now)
+  swap     (inside `history`) 2-4 calls on ONE object whose variable set is REPLACED in place between the calls (same number of
+           variables / more / fewer x larger / smaller / equal maximum label, other labels; by clear() + refill, cancelling every
+           term (+ refresh()) + refill, `*= 0` + refill, `*= {monomial: c}`): the state of every result must range over exactly
+           the variables the object has NOW (Matrix types: 0..max_index now); the model is fed the `+=` history since the last
+           clear / refresh / `*= dict`
   kernel   arbitrary `float` couplings: the captured C arguments are replayed through the kernel model
            alone; states and the bit patterns of the values must agree
   pcg      first outputs of pcg32 for a seed, through a 1-spin model (indirect) — covered by `anneal`
@@ -816,15 +821,7 @@ def gen_history(rng):
                     edits.append(["mul", rng.choice(["2", "-1", "1/2", "0", "3"])])
                 else:
                     edits.append(["add", keyof(top), rng.choice(COEFS)])
-        for e in edits:
-            if e[0] == "add":
-                ops.append([e[1], e[2]]); record(e[1], e[2])
-            else:
-                c = Fraction(e[1])
-                for sk in list(cur):
-                    d = cur[sk] * (c - 1)
-                    if d != 0 or True:
-                        ops.append([list(sk), fs(d)]); record(list(sk), d)
+        apply_edits(edits, ops, cur, spin)
         r = rng.random()
         if r < 0.6:
             dur = rng.choice([0, 1, 2, 3, 5, 8])
@@ -838,6 +835,116 @@ def gen_history(rng):
                       "in_order": rng.random() < 0.5, "seed": rng.randrange(2 ** 31),
                       "num_anneals": rng.choice([1, 1, 2, 3])})
     return {"family": "history", "fn": fn, "kind": kind, "labels": labels, "num": num, "calls": calls}
+
+def apply_edits(edits, ops, cur, spin):
+    """the effect of in-place edits on the cumulative `+=` history `ops` (what the model is fed: the object is what a fresh
+    object becomes under these `+=`) and on `cur` (squashed key -> value, in dict order).  clear() starts a new history;
+    refresh() rebuilds the object from its items in their current order; `H *= {key: c}` clears and re-adds the products."""
+    def record(k, v):
+        sk = tuple(squashed(k, spin))
+        val = cur.get(sk, Fraction(0)) + Fraction(v)
+        if val == 0:
+            cur.pop(sk, None)
+        else:
+            cur[sk] = val
+    for e in edits:
+        if e[0] == "add":
+            ops.append([e[1], e[2]]); record(e[1], e[2])
+        elif e[0] == "mul":
+            c = Fraction(e[1])
+            for sk in list(cur):
+                d = cur[sk] * (c - 1)
+                ops.append([list(sk), fs(d)]); record(list(sk), d)
+        elif e[0] == "clear":
+            del ops[:]; cur.clear()
+        elif e[0] == "refresh":
+            ops[:] = [[list(sk), fs(v)] for sk, v in cur.items()]
+        elif e[0] == "mulpoly":
+            items = list(cur.items())
+            del ops[:]; cur.clear()
+            for sk, v in items:
+                k = list(sk) + list(e[1])
+                ops.append([k, fs(v * Fraction(e[2]))]); record(k, v * Fraction(e[2]))
+        else:
+            raise ValueError(e[0])
+
+def gen_swap_history(rng):
+    """2-4 calls on ONE object whose variable set is REPLACED in place between the calls: the new set has the same number of
+    variables, more or fewer, and a larger, smaller or equal maximum label, always other labels; replaced by clear() + refill,
+    cancelling every term (+ refresh()) + refill, `*= 0` + refill, or — one term, spin types — `H *= {monomial: c}`.
+    Whatever the object remembers from the first call meets another variable set in the next (state over exactly the
+    variables now; Matrix types: 0..max_index now)."""
+    fn = rng.choice(["quso", "puso", "qubo", "pubo"])
+    kind = rng.choice(HIST_KINDS[fn])
+    deg2 = fn in ("quso", "qubo") or kind in DEG2
+    spin = fn in SPIN_FNS
+    labels = "int" if kind in MATRIX else rng.choice(Labels.STYLES_X)
+    num = rng.choice(["int", "frac", "float"])
+    top = 9
+    nmax = 4
+    def cover(V):
+        V = list(V); rng.shuffle(V)
+        if not deg2 and len(V) <= 4 and rng.random() < 0.6:
+            return [sorted(V)]
+        out = []
+        while V:
+            n = rng.randint(1, 2 if deg2 else 3)
+            out.append(V[:n]); V = V[n:]
+        return out
+    def fill(keys):
+        return [["add", list(k), rng.choice(COEFS)] for k in keys]
+    n = rng.randint(1, nmax)
+    V = sorted(rng.sample(range(max(n, top // 2)), n))
+    keys = cover(V)
+    cur, ops, calls = {}, [], []
+    hi = max(V)
+    for ci in range(rng.randint(2, 4)):
+        if ci == 0:
+            edits = fill(keys)
+            if rng.random() < 0.3:
+                edits.append(["add", [], rng.choice(COEFS)])
+        else:
+            cm = rng.choice(["same", "same", "same", "more", "fewer"])
+            mm = rng.choice(["larger", "larger", "smaller", "same"])
+            n2 = len(V) if cm == "same" else min(nmax + 1, len(V) + 1) if cm == "more" else max(1, len(V) - 1)
+            mx = max(V)
+            m2 = rng.randint(mx + 1, top) if (mm == "larger" and mx < top) else \
+                rng.randint(n2 - 1, mx - 1) if (mm == "smaller" and mx > n2 - 1) else mx
+            m2 = max(m2, n2 - 1)
+            below = [i for i in range(m2) if i not in V]
+            if len(below) < n2 - 1:
+                below = list(range(m2))
+            V2 = sorted(rng.sample(below, n2 - 1) + [m2])
+            way = rng.choice(["clear", "clear", "cancel+refresh", "cancel", "zero", "monomial"])
+            present = [list(k) for k in cur if k]
+            if way == "monomial" and not (len(present) == 1 and () not in cur and (spin or set(V) < set(V2))
+                                          and (not deg2 or len(V2) <= 2)):
+                way = "clear"
+            if way == "clear":
+                keys = cover(V2); edits = [["clear"]] + fill(keys)
+            elif way in ("cancel+refresh", "cancel"):
+                edits = [["add", list(k), fs(-v)] for k, v in cur.items()]
+                if way == "cancel+refresh":
+                    edits.append(["refresh"])
+                keys = cover(V2); edits += fill(keys)
+            elif way == "zero":
+                edits = [["mul", "0"]] + ([["refresh"]] if rng.random() < 0.5 else [])
+                keys = cover(V2); edits += fill(keys)
+            else:
+                ko = sorted(set(present[0]) ^ set(V2)) if spin else sorted(set(V2) - set(V))
+                edits = [["mulpoly", ko, rng.choice(["1", "-1", "2", "-3"])]]
+            V = V2
+            hi = max(hi, max(V))
+        apply_edits(edits, ops, cur, spin)
+        dur = rng.choice([0, 1, 2, 3, 5, 8])
+        sched = {"t": "explicit", "Ts": [rng.choice([0.0, 0.5, 1.0, rng.uniform(0.05, 4)]) for _ in range(dur)]}
+        init = None
+        if rng.random() < 0.3:
+            init = [[i, rng.choice([1, -1] if spin else [0, 1])] for i in range(top + 1)]
+        calls.append({"edits": edits, "ops": [list(o) for o in ops], "sched": sched, "init": init,
+                      "in_order": rng.random() < 0.5, "seed": rng.randrange(2 ** 31),
+                      "num_anneals": rng.choice([1, 1, 2, 3])})
+    return {"family": "history", "shape": "swap", "fn": fn, "kind": kind, "labels": labels, "num": num, "calls": calls}
 
 def history_calls(h):
     """the calls of a history as `anneal` cases (cumulative ops)"""
@@ -854,8 +961,16 @@ def run_history_impl(h):
         for e in call["edits"]:
             if e[0] == "add":
                 obj[L.key(e[1])] += num_of(e[2], h["num"])
-            else:
+            elif e[0] == "mul":
                 obj *= num_of(e[1], h["num"])
+            elif e[0] == "clear":
+                obj.clear()
+            elif e[0] == "refresh":
+                obj.refresh()
+            elif e[0] == "mulpoly":
+                obj *= {L.key(e[1]): num_of(e[2], h["num"])}
+            else:
+                raise ValueError(e[0])
         out.append(run_impl(c, prebuilt=(obj, L)))
     return out
 
@@ -987,6 +1102,8 @@ def process(ctx, cases):
         calls = history_calls(hc)
         ctx.case(hc, any(nontrivial(c, r[0], r[5]) for c, r in zip(calls, rs)))
         ctx.count("history:%s:%s" % (hc["fn"], hc["kind"]))
+        if hc.get("shape") == "swap":
+            ctx.count("history-swap")
         for i, (c, (canon, res, obj, L, _sd, call, detail)) in enumerate(zip(calls, rs)):
             m = canon_model(hmodels[pos]); pos += 1
             ctx.count("history-call:" + ("err:" + canon["err"] if "err" in canon else ("kernel" if canon["call"] else "early")))
@@ -1092,6 +1209,7 @@ def check(ctx):
     cases += [gen_kernel_case(rng) for _ in range(ctx.scale(800, 10000))]
     cases += [gen_mapping_case(rng) for _ in range(ctx.scale(400, 5000))]
     cases += [gen_history(rng) for _ in range(ctx.scale(400, 5000))]
+    cases += [gen_swap_history(rng) for _ in range(ctx.scale(300, 4000))]
     cases += [gen_cons_case(rng) for _ in range(ctx.scale(300, 4000))]
     cases += [gen_xeq_case(rng) for _ in range(ctx.scale(500, 6000))]
     process(ctx, cases)
